@@ -46,6 +46,13 @@ def points(kind, n, jit, seed_vals):
     return r * np.cos(t), r * np.sin(t)
 
 
+# lenses for the decomposition clause: the imaging profile plus physical apertures (pupil samples may be clipped: their OPD
+# is still part of the sampled wavefront that the decomposition has to reproduce)
+LENS = GL.Profile(max_surfs=6, shapes=['standard', 'standard', 'even_asphere'], allow_mirror=False, keep_edges=True,
+                  rho_min=3.0, steep_prob=0.0, ap_types=['EPD', 'imageFNO'], max_field_deg=8.0, allow_vignetting=False,
+                  max_n=2.0, zero_thickness=False, positive_power=True, negative_fields=True, allow_apertures=True)
+
+
 class C10(Check):
     pid = 'C10'
     title = 'Zernike families are correctly indexed, normalised, and recovered by fitting'
@@ -81,7 +88,7 @@ class C10(Check):
                                          a=f(-3.0, 3.0), b=f(-3.0, 3.0),
                                          pts=st.sampled_from(['hexapolar', 'grid', 'spiral']), jit=f(0.0, 1.0)))
         lens = st.fixed_dictionaries(dict(kind=st.just('lens'), family=st.sampled_from(FAMILIES),
-                                          spec=GL.lens_spec('imaging', min_surfs=2), N=st.integers(4, 37),
+                                          spec=GL.lens_spec(LENS, min_surfs=2), N=st.integers(4, 37),
                                           rings=st.integers(3, 6), fld=st.integers(0, 3)))
         return weighted((3, fit), (1, lens))
 
@@ -243,6 +250,8 @@ class C10(Check):
             raise
         x, y = np.asarray(zo.distribution.x), np.asarray(zo.distribution.y)
         z = np.asarray(zo.data[0][0][0], dtype=float)
+        if np.any(np.asarray(zo.data[0][0][1], dtype=float) == 0):
+            out.cls('clipped_pupil_samples')
         if not np.all(np.isfinite(z)) or len(x) < N + 3:
             out.cls('opd_not_finite')
             return
